@@ -156,12 +156,6 @@ theorem DictRead.tagsRead {t' : Tags} {ms : Members} (h : DictRead t' ms) :
       simp [kindMem, h2]
     rwa [this] at h1
 
-/-- … and when there is no `_kind` member at all -/
-theorem DictRead.tagsRead_untagged {t' : Tags} {ms : Members} (h : DictRead t' ms) (hu : Untagged (.obj ms)) :
-    TagsRead t' ms.toList := by
-  have := h.tagsRead
-  rwa [filter_noKind (hu ms rfl)] at this
-
 theorem rdr_dictObj {t' : Tags} {ms : Members} (h : DictRead t' ms) (n : Nat) (hn : 2 * size (.obj ms) ≤ n) :
     read n (.obj ms) = some (.dict t') := by
   have htr := h.tagsRead
@@ -205,47 +199,58 @@ theorem rdr_dictObj {t' : Tags} {ms : Members} (h : DictRead t' ms) (n : Nat) (h
 theorem rdr_meta {t' : Tags} {ver : List Char} {tm km vm : Mems} {mm : Members}
     (hv : tm.map rd = t'.toList) (hr : ∀ p ∈ tm, Readable p) (hk : TagKeys t')
     (hnv : ∀ k ∈ t'.keys, k ≠ s "ver") (hkm : OptKindDict km) (hvm : OptVer ver vm)
-    (hp : mm.toList.Perm (km ++ vm ++ tm)) (hu : Untagged (.obj mm)) :
+    (hp : mm.toList.Perm (km ++ vm ++ tm)) :
     (strOf (lookup mm.toList "ver")).getD (s "3.0") = ver ∧
-      TagsRead t' (mm.toList.filter (fun p => p.1 != s "ver")) := by
-  have hkm0 : km = [] := by
-    cases hkm with
-    | absent => rfl
-    | present =>
-      exfalso
-      exact hu mm rfl (kindMem "dict") (hp.mem_iff.mpr (by simp)) rfl
-  subst hkm0
+      TagsRead t' (mm.toList.filter (fun p => p.1 != s "ver" && p.1 != s "_kind")) := by
   have hnv' : ∀ p ∈ tm, p.1 ≠ s "ver" := by
     intro p hp'
     exact hnv p.1 (by rw [← keys_of_vals hv]; exact List.mem_map_of_mem hp')
-  have hfl : tm.filter (fun p => p.1 != s "ver") = tm := by
+  have hnk := noKind_of_vals hv hk
+  have hfl : tm.filter (fun p => p.1 != s "ver" && p.1 != s "_kind") = tm := by
     rw [List.filter_eq_self]
     intro p hp'
-    simpa using hnv' p hp'
+    have h1 := hnv' p hp'
+    have h2 := hnk p hp'
+    simp [h1, h2]
   have hnd : (tm.map (·.1)).Nodup := by
     rw [keys_of_vals hv]; exact (strictSorted_pairwise _ hk.1).imp (fun h => ltChars_ne h)
-  have h1 := hp.filter (fun p => p.1 != s "ver")
-  cases hvm with
-  | absent =>
-    refine ⟨?_, tm, by simpa [hfl] using h1, hv, hr⟩
-    rw [lookup_none_of_not_mem _ _ (fun p hp' => hnv' p ((by simpa using hp : mm.toList.Perm tm).mem_iff.mp hp'))]
-    rfl
-  | present =>
-    have hfl2 : ([] ++ [(s "ver", Json.str ver)] ++ tm).filter (fun p => p.1 != s "ver") = tm := by
-      simp [hfl]
-    rw [hfl2] at h1
-    refine ⟨?_, tm, h1, hv, hr⟩
-    rw [lookup_of_perm hp (by
-      simp only [List.cons_append, List.nil_append, List.map_cons, List.nodup_cons]
-      refine ⟨?_, hnd⟩
+  have h1 := hp.filter (fun p => p.1 != s "ver" && p.1 != s "_kind")
+  have hkmf : km.filter (fun p => p.1 != s "ver" && p.1 != s "_kind") = [] := by
+    cases hkm <;> simp [kindMem]
+  have hvmf : vm.filter (fun p => p.1 != s "ver" && p.1 != s "_kind") = [] := by
+    cases hvm <;> simp
+  rw [List.filter_append, List.filter_append, hkmf, hvmf, hfl] at h1
+  refine ⟨?_, tm, by simpa using h1, hv, hr⟩
+  -- the version: `ver` is looked up by name among `km ++ vm ++ tm`
+  have hkmk : ∀ p ∈ km, p.1 = s "_kind" := by
+    cases hkm <;> simp [kindMem]
+  have hndL : ((km ++ vm ++ tm).map (·.1)).Nodup := by
+    cases hkm <;> cases hvm <;>
+      simp only [List.nil_append, List.cons_append, List.map_cons, List.nodup_cons, List.mem_cons, not_or, kindMem]
+    · exact hnd
+    · refine ⟨?_, hnd⟩
       intro hm
       obtain ⟨p, hp', e⟩ := List.mem_map.mp hm
-      exact hnv' p hp' e)]
-    have : lookup tm "ver" = none := lookup_none_of_not_mem _ _ hnv'
-    unfold lookup at this ⊢
-    simp only [List.cons_append, List.nil_append, List.reverse_cons, List.find?_append]
-    cases hf : tm.reverse.find? (fun p => p.1 == s "ver") with
-    | some q => rw [hf] at this; simp at this
-    | none => simp [strOf]
+      exact hnv' p hp' e
+    · refine ⟨?_, hnd⟩
+      intro hm
+      obtain ⟨p, hp', e⟩ := List.mem_map.mp hm
+      exact hnk p hp' e
+    · refine ⟨⟨by simp [s], ?_⟩, ?_, hnd⟩
+      · intro hm
+        obtain ⟨p, hp', e⟩ := List.mem_map.mp hm
+        exact hnk p hp' e
+      · intro hm
+        obtain ⟨p, hp', e⟩ := List.mem_map.mp hm
+        exact hnv' p hp' e
+  rw [lookup_of_perm hp hndL]
+  have htm : lookup tm "ver" = none := lookup_none_of_not_mem _ _ hnv'
+  unfold lookup at htm ⊢
+  cases hf : tm.reverse.find? (fun p => p.1 == s "ver") with
+  | some q => rw [hf] at htm; simp at htm
+  | none =>
+    have e1 : (s "_kind" == s "ver") = false := by decide
+    cases hkm <;> cases hvm <;>
+      simp [List.find?_append, hf, kindMem, strOf, e1]
 
 end Hs.Spec.Hayson
